@@ -11,7 +11,8 @@
 From Coq Require Import List NArith Bool.
 Import ListNotations.
 Require Import MV.C09.Model MV.C09.Spec MV.C09.Exec MV.C09.Inv MV.C09.Abs MV.C09.Safety MV.C09.Render
-               MV.C09.Conserve MV.C09.Sound MV.C09.Final.
+               MV.C09.Conserve MV.C09.Sound MV.C09.Final MV.C09.Compose MV.C09.WModel MV.C09.WSpec MV.C09.WProofs.
+Require MV.C09.XExec MV.C09.XProofs.
 Open Scope N_scope.
 
 (* the constructor establishes the invariant *)
@@ -85,16 +86,82 @@ Theorem C09_emitted_message_roundtrip : forall c o chunks ch,
   parse_msg (render (expect c o ch)) = Some (expect c o ch).
 Proof. exact emitted_message_roundtrip. Qed.
 
-(* full statement:  forall c, spec_ok c (run_case c) = true.
-   Proved: totality, one output per operation, and the framing/size clause of spec_ok on every
-   yielded payload; the WriteResult clause is C09_write_result_meets_spec; the message and
-   conservation clause is proved per write (C09_point_conservation, C09_emitted_message_roundtrip)
-   but not composed with the checker's pending-payload bookkeeping over whole sequences. *)
-Theorem C09_spec_ok_on_model_partial : forall c, k_max c < two32 ->
+(* the executable specification accepts every output of the model, for every case: every maximum
+   (2^32 and above: the constructor's assert is the only output), both framing modes, every op
+   sequence.  The sequence invariant: the checker's pending list corresponds entry by entry to
+   groups of the writer's committed-but-undrained bodies (Compose.check_run). *)
+Theorem C09_spec_ok_on_model : forall c, spec_ok c (run_case c) = true.
+Proof. exact spec_ok_on_model. Qed.
+
+(* what acceptance means: [SpecP] (Compose.v) — per write, the WriteResult is the one determined by
+   which values fit ([CountsP]); per drain, Payloads::len() is the sum of payloads_written since the
+   previous drain, min(k, that) payloads are yielded, each is the frame of a body within the limit
+   ([FramedP]), and the bodies, attributed in order to the pending writes by their payloads_written,
+   parse (under delimiter-freeness) to the expected message of that write over non-empty runs of
+   values whose concatenation is a prefix of - all of, if the write's payloads were all yielded -
+   the values that fit ([DistributedP], [BodiesP]); no output is a panic. *)
+Theorem C09_spec_ok_sound : forall c o,
+  k_max c < two32 -> forallb values_nonempty (k_ops c) = true ->
+  spec_ok c o = true -> SpecP (cfg_of impl_fixes c) (k_ops c) o [].
+Proof. intros c o. exact (spec_check_sound (cfg_of impl_fixes c) (k_ops c) o). Qed.
+
+Theorem C09_case_outputs_total_and_framed : forall c, k_max c < two32 ->
   ~ In OPanic (run_case c) /\ length (run_case c) = length (k_ops c) /\
   forall a ps p, In (OPayloads a ps) (run_case c) -> In p ps ->
     exists body, unframe (cfg_of impl_fixes c) p = Some body /\ p = frame (k_lp c) body.
 Proof. exact spec_ok_on_model_partial. Qed.
+
+(* ---- wiring: remote address parsing (forwarder/mod.rs) *)
+Theorem C09_addr_meets_documented_table : forall rp rw a, parse_addr rp rw a = spec_addr rp rw a.
+Proof. exact parse_addr_meets_spec. Qed.
+
+Theorem C09_addr_accepted_sound : forall rp rw a t p, parse_addr rp rw a = AOk t p ->
+  match t with
+  | TUnix => a = pre_unix ++ p
+  | TUnixgram => a = pre_unixgram ++ p
+  | TUdp => (a = pre_udp ++ p /\ rp = true) \/ (a = p /\ rw = true /\ contains_sep a = false)
+  end.
+Proof. exact addr_accepted_sound. Qed.
+
+Theorem C09_addr_unix_schemes_accepted : forall rp rw p,
+  parse_addr rp rw (pre_unix ++ p) = AOk TUnix p /\ parse_addr rp rw (pre_unixgram ++ p) = AOk TUnixgram p /\
+  parse_addr true rw (pre_udp ++ p) = AOk TUdp p.
+Proof. intros. repeat split. Qed.
+
+(* ---- wiring: builder validation (builder.rs) *)
+Theorem C09_builder_meets_reference : forall ops b,
+  run_builder true b ops = spec_builder (b_t b) (b_path b) (b_max b) ops.
+Proof. exact builder_meets_spec. Qed.
+
+Theorem C09_builder_accepts_within_limits : forall fixd ops b tid m lp d,
+  In (BConfig tid m lp d) (run_builder fixd b ops) ->
+  exists t, tid = transport_id t /\ m <= max_allowed t /\ m <= u32_max /\
+            (lp = true <-> t = TUnix) /\
+            m = match last_max ops (b_max b) with Some n => n | None => default_max_payload_len t end.
+Proof. exact builder_accepts_within_limits. Qed.
+
+(* ---- wiring: telemetry prefix bypass and one flush (state.rs) *)
+Theorem C09_telemetry_prefix_bypass : forall gp name,
+  doc_prefix gp name = effective_prefix gp name /\
+  (forall rest, effective_prefix gp (client_prefix ++ rest) = None) /\
+  (starts_with client_prefix name = false -> effective_prefix gp name = gp).
+Proof.
+  intros gp name. split; [apply doc_prefix_is_effective|]. split; [intros; apply telemetry_names_not_prefixed|].
+  intros H. unfold effective_prefix. rewrite H. reflexivity.
+Qed.
+
+Theorem C09_flush_total : forall f ms, f_max f < two32 -> run_flush f ms <> None.
+Proof. exact flush_total. Qed.
+
+(* full statement: forall c, XExec.spec_ok c (XExec.run_case c) = true; proved for writer and builder
+   cases; for one-flush cases (XF) only C09_flush_total and the per-write theorems apply *)
+Theorem C09_xspec_ok_on_model_partial : forall c,
+  (match c with XExec.XF _ _ => False | _ => True end) -> XExec.spec_ok c (XExec.run_case c) = true.
+Proof. exact XProofs.xspec_ok_on_model_partial. Qed.
+
+Theorem C09_display_refuted_before_fix :
+  exists ops, XExec.spec_ok (XExec.XB ops) (XExec.OB (run_builder false bdefault ops)) = false.
+Proof. exists [BAddr (pre_unix ++ [120]) false false]. vm_compute. reflexivity. Qed.
 
 (* the code as found (each repair switched off separately) violates the property *)
 Theorem C09_framing_refuted_before_fix_drop :
